@@ -10,6 +10,7 @@ import (
 	"time"
 
 	"github.com/alecthomas/participle/v2"
+	"github.com/alecthomas/participle/v2/lexer"
 )
 
 func init() {
@@ -215,10 +216,68 @@ type shUintptr struct {
 	A uintptr `@Int`
 }
 
+// supported capture targets: every documented field type with the wrappers the README lists (value, pointer, slice,
+// slice of pointers) must build
+type shCapStruct struct{ Name string }
+
+func (p *shCapStruct) Capture(values []string) error { p.Name = values[0]; return nil }
+
+type shTextStruct struct{ Name string }
+
+func (p *shTextStruct) UnmarshalText(b []byte) error { p.Name = string(b); return nil }
+
+type shCapSlice []string
+
+func (p *shCapSlice) Capture(values []string) error { *p = append(*p, values...); return nil }
+
+type shSupported struct {
+	S    string          `@Ident`
+	PS   *string         `@Ident`
+	SS   []string        `@Ident`
+	I    int             `@Int`
+	I8   int8            `@Int`
+	U16  uint16          `@Int`
+	PI   *int64          `@Int`
+	IS   []int32         `@Int`
+	F    float64         `@Float`
+	FS   []float32       `@Float`
+	B    bool            `@"x"`
+	PB   *bool           `@"x"`
+	BS   []bool          `@"x"`
+	C    shCapStruct     `@Ident`
+	PC   *shCapStruct    `@Ident`
+	CS   []shCapStruct   `@Ident`
+	PCS  []*shCapStruct  `@Ident`
+	T    shTextStruct    `@Ident`
+	PT   *shTextStruct   `@Ident`
+	TS   []shTextStruct  `@Ident`
+	PTS  []*shTextStruct `@Ident`
+	NS   shCapSlice      `@Ident`
+	Tok  lexer.Token     `@Ident`
+	Toks []lexer.Token   `@Ident`
+	Sub  shEmbedBase     `@@`
+	PSub *shEmbedBase    `@@`
+	Subs []shEmbedBase   `@@*`
+	PSs  []*shEmbedBase  `@@*`
+	Pos  lexer.Position
+	End  lexer.Position `parser:"" json:"-"`
+}
+
+// fields excluded from the grammar: parser:"" / no tag / parser:"-"-free spelling with other keys present
+type shExcluded struct {
+	A       string `parser:"@Ident" json:"a"`
+	Comment string `parser:"" json:"comment"`
+	Note    string
+	B       string `parser:"@Ident"`
+}
+
 // shape-run: Build on struct shapes; prints "name\toutcome".
 func shapeRun(args []string) error {
 	run := func(name string, f func() error) {
 		fmt.Printf("%s\t%s\n", name, guardedBuild(f))
+		if os.Getenv("VERIF_SHAPE_DEBUG") != "" {
+			fmt.Fprintln(os.Stderr, name, f())
+		}
 	}
 	run("map", func() error { _, err := participle.Build[shMap](); return err })
 	run("chan", func() error { _, err := participle.Build[shChan](); return err })
@@ -244,6 +303,18 @@ func shapeRun(args []string) error {
 			_ = p.String()
 		}
 		return err
+	})
+	run("supported-targets", func() error { _, err := participle.Build[shSupported](); return err })
+	run("excluded-fields", func() error {
+		p, err := participle.Build[shExcluded]()
+		if err != nil {
+			return err
+		}
+		v, err := p.ParseString("", "x y")
+		if err != nil || v.A != "x" || v.B != "y" || v.Comment != "" {
+			return fmt.Errorf("excluded field took part in the parse: %+v %v", v, err)
+		}
+		return nil
 	})
 	run("complex", func() error { _, err := participle.Build[shComplex](); return err })
 	run("uintptr", func() error { _, err := participle.Build[shUintptr](); return err })
